@@ -400,6 +400,15 @@ pub fn run(ctx: &Ctx) {
     ctx.merge(t);
     ctx.space("rejection families: LOC version 1..=255; SVCB+HTTPS key sequences {0,1,2}^<=3; NSEC windows {0,1,2,255}^<=3; every inner length one past the RDATA end (each with and without a following record)", n, "complete");
     ctx.sample(json!({"kind": "reject", "code": 47, "rdata": "00000140000001ff", "rule": "nsec-order"}));
+    {
+        let mut t = Tally::default();
+        let (f, n) = check_conversions();
+        t.evals += n;
+        t.nontrivial += n;
+        ctx.violations(f);
+        ctx.merge(t);
+        ctx.space("conversions: walking-bit EUI48 / EUI64 / IPv4 / IPv6 addresses through the From impls; Deref / DerefMut / From of the name-wrapping record types", n, "complete");
+    }
     // typed SVCB / HTTPS setters in every order
     {
         let mut seqs: Vec<Vec<u8>> = Vec::new();
@@ -425,6 +434,71 @@ pub fn run(ctx: &Ctx) {
         });
         ctx.space(&format!("SVCB/HTTPS typed setters: every sequence of <= {} calls over {{mandatory, alpn, no-default-alpn, port, ipv4hint, ipv6hint, arbitrary key}} (repeats replace) x 3 value variants x {{SVCB, HTTPS}}; RDATA compared with the RFC 9460 encoding and parsed back", ctx.tier.pick(4, 5)), seqs.len() as u64 * 6, "complete");
         ctx.sample(json!({"kind": "svcb-builders", "seq": [3, 1, 0], "variant": 1, "https": true}));
+    }
+}
+
+/// Small conversions around the record types: EUI48 / EUI64 to byte arrays, address conversions of
+/// A / AAAA, Deref / DerefMut / From of the name-wrapping record types.
+pub fn check_conversions() -> (Vec<Finding>, u64) {
+    use simple_dns::rdata::{A, AAAA, CNAME, EUI48, EUI64, NS, PTR};
+    use simple_dns::Name;
+    let case = json!({"kind": "conversions"});
+    let r = guarded(|| {
+        let mut bad: Vec<(String, String)> = Vec::new();
+        let mut n = 0u64;
+        for bit in 0..64usize {
+            n += 1;
+            let mut a8 = [0u8; 8];
+            a8[bit / 8] = 0x80 >> (bit % 8);
+            let back: [u8; 8] = EUI64 { address: a8 }.into();
+            if back != a8 {
+                bad.push(("eui64-into-array".into(), format!("{:?} -> {:?}", a8, back)));
+            }
+            if bit < 48 {
+                let mut a6 = [0u8; 6];
+                a6[bit / 8] = 0x80 >> (bit % 8);
+                let back: [u8; 6] = EUI48 { address: a6 }.into();
+                if back != a6 {
+                    bad.push(("eui48-into-array".into(), format!("{:?} -> {:?}", a6, back)));
+                }
+            }
+            if bit < 32 {
+                let v = 1u32 << bit;
+                let a = A::from(std::net::Ipv4Addr::from(v));
+                if a.address != v {
+                    bad.push(("a-from-ipv4".into(), format!("{:#x} -> {:#x}", v, a.address)));
+                }
+            }
+            let v = 1u128 << (bit * 2);
+            let a = AAAA::from(std::net::Ipv6Addr::from(v));
+            if a.address != v {
+                bad.push(("aaaa-from-ipv6".into(), format!("{:#x} -> {:#x}", v, a.address)));
+            }
+        }
+        let n1 = Name::new_unchecked("a.example");
+        let n2 = Name::new_unchecked("other.example");
+        macro_rules! wrapper {
+            ($t:ident) => {{
+                n += 1;
+                let mut w = $t(n1.clone());
+                let via_from: $t = n1.clone().into();
+                if *w != n1 || via_from != w {
+                    bad.push((format!("wrapper-deref-{}", stringify!($t)), "Deref / From give another name".to_string()));
+                }
+                *w = n2.clone();
+                if w.0 != n2 {
+                    bad.push((format!("wrapper-deref-mut-{}", stringify!($t)), "DerefMut does not write the wrapped name".to_string()));
+                }
+            }};
+        }
+        wrapper!(NS);
+        wrapper!(CNAME);
+        wrapper!(PTR);
+        (bad, n)
+    });
+    match r {
+        Err(pn) => (vec![finding(format!("C10|conversions|{}", pn.sig()), format!("{:?}", pn), case)], 0),
+        Ok((bad, n)) => (bad.into_iter().map(|(t, d)| finding(format!("C10|conversions|{}", t), d, case.clone())).collect(), n),
     }
 }
 
@@ -538,6 +612,7 @@ pub fn check_svcb_builders(seq: &[u8], variant: usize, https: bool) -> Vec<Findi
 
 pub fn replay(case: &Value) -> Vec<Finding> {
     match case["kind"].as_str().unwrap_or("") {
+        "conversions" => check_conversions().0,
         "svcb-builders" => {
             let seq: Vec<u8> = case["seq"].as_array().map(|a| a.iter().filter_map(|x| x.as_u64().map(|v| v as u8)).collect()).unwrap_or_default();
             check_svcb_builders(&seq, case["variant"].as_u64().unwrap_or(0) as usize, case["https"].as_bool().unwrap_or(false))
